@@ -22,8 +22,8 @@ import ast
 
 from xfabsa import core, numeric as N, rotref as RR
 from xfabsa.core import AnalysisError
-from xfabsa.poly import Rat, ATOM_ARGS, atom_info, sqrt_of
-from xfabsa.symeval import Evaluator, sym_array, Arr, Opaque, scalar, materialise
+from xfabsa.poly import Rat, ATOM_ARGS, atom_info, sqrt_of, func_atom
+from xfabsa.symeval import Evaluator, sym_array, Arr, Opaque, scalar, materialise, angle_range_sign
 
 
 def vec3(v, what):
@@ -78,29 +78,62 @@ def half_angle_form(expr: Rat, ch: str, sh: str):
     return A, q / 2, r + A
 
 
-def solver_policy(disc_branch):
-    """branch policy: skip CHECKS; discriminant test -> disc_branch (True = 'no solution' arm);
-    `omega[i] > pi` wrap -> not taken (dead for arctan2 results)"""
-    seen = {}
+class SolverOracle:
+    """Sign-level branch answers for the omega solvers (whatever the spelling, nesting or order of the tests):
+    a comparison of a principal-value angle with a multiple of pi is decided from the angle's range (the `omega > pi` wraps
+    are dead for arctan2 results); the first other undecided comparison is the two-or-none test and the compared difference
+    gets the sign `disc_sign`; later ones are answered by `later(difference)`."""
 
-    def pol(test, ev, env):
-        if N.skip_checks_policy(test, ev, env) is False:
-            return False
-        if isinstance(test, ast.Compare) and len(test.ops) == 1:
-            txt = core.unparse(test)
-            if "pi" in txt and isinstance(test.ops[0], ast.Gt):
-                return False
-            if isinstance(test.left, ast.Name) and isinstance(test.comparators[0], ast.Constant) \
-                    and test.comparators[0].value == 0 and "disc" not in seen:
-                seen["disc"] = (test, ev.eval(test.left, env))
-                return disc_branch
-            if isinstance(test.left, ast.Call) and "abs" in core.unparse(test.left.func) and "disc" not in seen:
-                # find_omega_wedge: abs(coseta) > 1
-                seen["disc"] = (test, ev.eval(test.left.args[0], env))
-                return disc_branch
-        return None
-    pol.seen = seen
-    return pol
+    def __init__(self, disc_sign, later=None):
+        self.disc_sign = disc_sign
+        self.later = later
+        self.disc = None
+
+    def __call__(self, d, node=None):
+        sg = angle_range_sign(d)
+        if sg is not None:
+            return sg
+        if self.disc is None:
+            self.disc = d
+            return self.disc_sign
+        if self.disc.equals(d):
+            return self.disc_sign
+        if self.disc.equals(-d):
+            return -self.disc_sign
+        return self.later(d) if self.later is not None else None
+
+
+def run_solver(mod, fn, args, disc_sign, later=None):
+    orc = SolverOracle(disc_sign, later)
+    ev = Evaluator(mod, inline=True, branch_policy=N.skip_checks_policy, sign_policy=orc)
+    return ev._call_fn(fn, list(args), {}), orc, ev
+
+
+pos_multiple = N.pos_multiple
+
+
+def two_or_none(ctx, mod, short, solver, fn_run, args, where, pair=True, later=None):
+    """run the solver with the two-or-none difference positive and negative -> (sign of the run returning two, its output,
+    its oracle, its evaluator) ; records the count rules"""
+    runs = {}
+    for sg in (1, -1):
+        out, orc, ev = run_solver(mod, fn_run, args, sg, later)
+        if pair:
+            if not (isinstance(out, tuple) and len(out) == 2):
+                raise AnalysisError("%s does not return (omega, eta)" % solver)
+            cnt = (len(as_list(out[0])), len(as_list(out[1])))
+        else:
+            cnt = (len(as_list(out)),) * 2
+        runs[sg] = (out, orc, ev, cnt)
+    two = [sg for sg in (1, -1) if runs[sg][3] == (2, 2)]
+    none = [sg for sg in (1, -1) if runs[sg][3] == (0, 0)]
+    ctx.check(len(two) >= 1, "C09:count:%s.%s:two" % (short, solver),
+              "omega / eta counts on the two sides of the two-or-none test are %s and %s: no side returns two solutions"
+              % (runs[1][3], runs[-1][3]), where)
+    ctx.check(len(none) == 1 and len(two) == 1 and runs[1][1].disc is not None, "C09:count:%s.%s:none" % (short, solver),
+              "solutions are returned although the discriminant is negative (counts %s / %s)" % (runs[1][3], runs[-1][3]), where)
+    s2 = two[0] if two else 1
+    return (s2,) + runs[s2][:3]
 
 
 def arctan2_args(r: Rat):
@@ -160,20 +193,8 @@ def analyse_general_like(ctx, mod, short, solver, builder_call, half_angle):
         # separately (here and in C14), the body is analysed on a vector of the asserted length
         fn_run, pre = strip_rescale_preamble(fn)
         check_preamble(ctx, mod, short, solver, pre)
-    pol = solver_policy(False)
-    ev = Evaluator(mod, inline=True, branch_policy=pol)
-    out = ev._call_fn(fn_run, [g, tw, wx, wy], {})
-    if not (isinstance(out, tuple) and len(out) == 2):
-        raise AnalysisError("%s does not return (omega, eta)" % solver)
+    s2, out, orc, ev = two_or_none(ctx, mod, short, solver, fn_run, [g, tw, wx, wy], where)
     omega, eta = as_list(out[0]), as_list(out[1])
-    ctx.check(len(omega) == 2 and len(eta) == 2, "C09:count:%s.%s:two" % (short, solver),
-              "%d omega / %d eta returned on the branch with non-negative discriminant" % (len(omega), len(eta)), where)
-    # none on the other branch
-    pol0 = solver_policy(True)
-    out0 = Evaluator(mod, inline=True, branch_policy=pol0)._call_fn(fn_run, [g, tw, wx, wy], {})
-    o0, e0 = as_list(out0[0]), as_list(out0[1])
-    ctx.check(len(o0) == 0 and len(e0) == 0, "C09:count:%s.%s:none" % (short, solver),
-              "solutions are returned although the discriminant is negative", where)
     # which vector is rotated: tools g_w itself (asserted length), laue the rescaled one
     gu = gv
     if True:
@@ -221,12 +242,10 @@ def analyse_general_like(ctx, mod, short, solver, builder_call, half_angle):
                   "builder at the solver's own omega, tilts and units" % i, where)
     distinct = not (cs[0][0].equals(cs[1][0]) and cs[0][1].equals(cs[1][1]))
     ctx.check(distinct, "C09:count:%s.%s:distinct" % (short, solver), "the two roots are the same expression", where)
-    # discriminant test: `d < 0` with d == A^2 + B^2 - (gg + C0)^2  (zero set of the discriminant)
-    test, dval = pol.seen.get("disc", (None, None))
-    okd = False
-    if test is not None:
-        want = A * A + B * B - (gg + C0) * (gg + C0)
-        okd = isinstance(test.ops[0], (ast.Lt, ast.LtE)) and scalar(dval).equals(want)   # tangency is outside the claim
+    # two-or-none test: the compared difference is a positive multiple of +-(A^2 + B^2 - (gg + C0)^2), two solutions on the
+    # side where that discriminant is positive (tangency is outside the claim)
+    want = A * A + B * B - (gg + C0) * (gg + C0)
+    okd = orc.disc is not None and pos_multiple(orc.disc * s2, want)
     ctx.check(okd, "C09:count:%s.%s:discriminant" % (short, solver),
               "the branch test is not `a^2 + b^2 - c^2 < 0` for the equation the roots solve", where)
 
@@ -244,33 +263,19 @@ def analyse_find_omega(ctx, mod, short):
         fn_run, pre = strip_rescale_preamble(fn)
         if pre is not None:
             check_preamble(ctx, mod, short, solver, pre)
-    for neg in (False, True):
-        seen = {}
+    results = {}
+    for r in (1, -1):
+        asked = []
 
-        def pol(test, ev, env, neg=neg, seen=seen):
-            if isinstance(test, ast.Compare) and len(test.ops) == 1 and isinstance(test.comparators[0], ast.Constant) \
-                    and test.comparators[0].value == 0 and isinstance(test.left, ast.Name):
-                val = ev.eval(test.left, env)
-                if isinstance(test.ops[0], (ast.Gt, ast.GtE)) and "disc" not in seen:
-                    seen["disc"] = (test, val)
-                    return True
-                if isinstance(test.ops[0], ast.Lt):
-                    seen.setdefault("sign", []).append(scalar(val))
-                    return neg
-            return None
-        out = Evaluator(mod, inline=True, branch_policy=pol)._call_fn(fn_run, [g, tw], {})
-        results[neg] = (as_list(out), seen)
-    om_pos, seen = results[False]
-    om_neg, _ = results[True]
-    ctx.check(len(om_pos) == 2, "C09:count:%s.find_omega:two" % short, "%d solutions on the positive-discriminant branch" % len(om_pos), where)
-
-    def pol_none(test, ev, env):
-        if isinstance(test, ast.Compare) and isinstance(test.ops[0], (ast.Gt, ast.GtE)):
-            return False
-        return None
-    none = as_list(Evaluator(mod, inline=True, branch_policy=pol_none)._call_fn(fn_run, [g, tw], {}))
-    ctx.check(len(none) == 0, "C09:count:%s.find_omega:none" % short, "solutions returned for a non-positive discriminant", where)
-    if len(om_pos) != 2 or len(seen.get("sign", [])) != 2:
+        def later(d, asked=asked, r=r):
+            asked.append(d)
+            return r
+        s2, out, orc, _ev = two_or_none(ctx, mod, short, solver, fn_run, [g, tw], where, pair=False, later=later) if r == 1 \
+            else (s2,) + run_solver(mod, fn_run, [g, tw], s2, later)
+        results[r] = (as_list(out), list(asked), orc)
+    om_pos, asked, orc = results[1]
+    om_neg, _a, _o = results[-1]
+    if len(om_pos) != 2 or len(om_neg) != 2 or len(asked) != 2:
         ctx.fail("C09:root:%s.find_omega:shape" % short, "expected two arccos results each with a sign test", where)
         return
     # normalised equation: (g0/|g|) cos w - (g1/|g|) sin w = -sin(theta); Rz(w) is the module's form_omega_mat
@@ -284,27 +289,38 @@ def analyse_find_omega(ctx, mod, short):
     C2 = N.ref("cos(tw)", {"tw": tw})
     roots = []
     for i in range(2):
-        info = atom_info(scalar(om_pos[i]))
-        infon = atom_info(-scalar(om_neg[i]))
-        s_i = seen["sign"][i]
-        if info is None or info[0] != "arccos" or infon is None or infon[0] != "arccos":
+        # omega[i] = +-arccos(c_i), the sign following the sign of the tested quantity (a multiple of sin w_i)
+        cands = [(kappa, rr) for kappa in (1, -1) for rr in (1, -1)]
+        info = None
+        for cand in (scalar(results[1][0][i]), -scalar(results[1][0][i])):
+            info = atom_info(cand)
+            if info is not None and info[0] == "arccos":
+                break
+        if info is None or info[0] != "arccos":
             ctx.fail("C09:root:%s.find_omega[%d]" % (short, i), "omega[%d] is not +-arccos(cos w) with the sign of sin w" % i, where)
             return
         c_i = info[1][0]
-        roots.append((c_i, s_i))
-        unit = (c_i * c_i + s_i * s_i).equals(1)
-        lhs = A * c_i + B * s_i + C0         # must be -sin(theta): negative, square (1 - cos 2theta)/2
-        sq = (lhs * lhs).equals((1 - C2) / 2)
-        # sign: lhs = (C2 - 1)/positive  -> numerator (C2-1) <= 0 over a positive square root
-        negsign = lhs.equals((C2 - 1) / sqrt_of(2 * (1 - C2)))
-        ctx.check(unit and sq and negsign, "C09:root:%s.find_omega[%d]" % (short, i),
-                  "root %d: on unit circle %s ; (x-row of Rz(w).g/|g|)^2 == sin^2 theta %s ; equals -(1-cos2t)/sqrt(2(1-cos2t)) %s"
-                  % (i, unit, sq, negsign), where)
-    ctx.check(not (roots[0][0].equals(roots[1][0]) and roots[0][1].equals(roots[1][1])),
-              "C09:count:%s.find_omega:distinct" % short, "the two roots coincide", where)
-    test, dval = seen.get("disc", (None, None))
-    okd = test is not None and isinstance(test.ops[0], (ast.Gt, ast.GtE)) and \
-        scalar(dval).equals(A * A + B * B - (1 - C2) / 2)
+        acos = N.ref("arccos(x)", {"x": c_i})
+        verdict = None
+        for kappa in (1, -1):
+            s_i = asked[i] * kappa                  # candidate for sin w_i
+            unit = (c_i * c_i + s_i * s_i).equals(1)
+            lhs = A * c_i + B * s_i + C0            # must be -sin(theta): negative, square (1 - cos 2theta)/2
+            sq = (lhs * lhs).equals((1 - C2) / 2)
+            negsign = lhs.equals((C2 - 1) / sqrt_of(2 * (1 - C2)))
+            # in the run where the tested difference has sign r, sin w_i has sign kappa*r: omega = (kappa*r) * arccos(c_i)
+            follows = all(scalar(results[r][0][i]).equals(acos * (kappa * r)) for r in (1, -1))
+            verdict = (unit, sq, negsign, follows)
+            if all(verdict):
+                roots.append((c_i, s_i))
+                break
+        ctx.check(verdict is not None and all(verdict), "C09:root:%s.find_omega[%d]" % (short, i),
+                  "root %d: on unit circle %s ; (x-row of Rz(w).g/|g|)^2 == sin^2 theta %s ; equals -(1-cos2t)/sqrt(2(1-cos2t)) %s ; "
+                  "omega = sign(sin w) arccos(cos w) %s" % ((i,) + tuple(verdict)), where)
+    if len(roots) == 2:
+        ctx.check(not (roots[0][0].equals(roots[1][0]) and roots[0][1].equals(roots[1][1])),
+                  "C09:count:%s.find_omega:distinct" % short, "the two roots coincide", where)
+    okd = orc.disc is not None and pos_multiple(orc.disc * s2, A * A + B * B - (1 - C2) / 2)
     ctx.check(okd, "C09:count:%s.find_omega:discriminant" % short,
               "the branch test is not `a^2 + b^2 - c^2 > 0`", where)
 
@@ -322,15 +338,8 @@ def analyse_wedge(ctx, mod, short):
     try:
         tw, wedge = Rat.atom("twoth"), Rat.atom("wedge")
         garr = Arr([g0, g1, G2])
-        pol = solver_policy(False)
-        out = Evaluator(mod, inline=True, branch_policy=pol).call_function(solver, [garr, tw, wedge])
+        s2, out, orc, _ev = two_or_none(ctx, mod, short, solver, fn, [garr, tw, wedge], where)
         omega, eta = as_list(out[0]), as_list(out[1])
-        pol0 = solver_policy(True)
-        out0 = Evaluator(mod, inline=True, branch_policy=pol0).call_function(solver, [garr, tw, wedge])
-        ctx.check(len(as_list(out0[0])) == 0 and len(as_list(out0[1])) == 0, "C09:count:%s.%s:none" % (short, solver),
-                  "solutions returned although |cos eta| > 1", where)
-        ctx.check(len(omega) == 2 and len(eta) == 2, "C09:count:%s.%s:two" % (short, solver),
-                  "%d omega / %d eta" % (len(omega), len(eta)), where)
         if len(omega) != 2 or len(eta) != 2:
             return
         C, S = RR.cs(tw)
@@ -367,9 +376,9 @@ def analyse_wedge(ctx, mod, short):
         i0 = atom_info(e0)
         ctx.check(i0 is not None and i0[0] == "arccos" and e1.equals(-e0), "C09:eta:%s.%s" % (short, solver),
                   "eta is not (arccos(c), -arccos(c))", where)
-        test, dval = pol.seen.get("disc", (None, None))
-        okd = test is not None and isinstance(test.ops[0], (ast.Gt, ast.GtE)) and i0 is not None and scalar(dval).equals(i0[1][0]) \
-            and isinstance(test.comparators[0], ast.Constant) and float(test.comparators[0].value) == 1.0
+        # two solutions exactly on the side 1 - |cos eta| > 0 of the two-or-none test
+        okd = orc.disc is not None and i0 is not None and i0[0] == "arccos" and \
+            pos_multiple(orc.disc * s2, 1 - func_atom("abs", i0[1][0]))
         ctx.check(okd, "C09:count:%s.%s:discriminant" % (short, solver), "the no-solution test is not |cos eta| > 1", where)
     finally:
         poly.clear_relation("g_w[2]")
